@@ -29,7 +29,7 @@ RULE_TEXT = ('runs = seeded random suites of 2..6 cases (disturbers: env in both
              'with --suite + every case alone beside exactly.suite (+ the sub-suite case). Non-trivial = at least one '
              'disturber ran before an observer in one of the runs; distinct = (case kinds and endings in order, suite '
              'phases, sub-suite phases, preprocessor).')
-REACH_PROBES = ['launched_from_another_directory', 'case_with_own_conf_status', 'case_with_invalid_value_for_suite_instruction', 'stdin_disturbance',
+REACH_PROBES = ['launched_from_another_directory', 'case_files_are_symbolic_links', 'act_contents_without_header', 'case_with_own_conf_status', 'case_with_invalid_value_for_suite_instruction', 'stdin_disturbance',
                 'preprocessor_fails_for_one_case', 'suite_conf_status', 'suite_conf_actor', 'disturber_before_observer', 'disturber_ended_by_exception', 'disturber_ended_by_timeout',
                 'disturber_ended_by_hard_error', 'disturber_failing_cleanup', 'observer_foreign_symbol_reference',
                 'observer_same_symbol_names', 'suite_phase_setup', 'suite_phase_before_assert', 'suite_phase_assert',
@@ -141,6 +141,10 @@ def gen_case(g, cid, force_kind=None):
     # a symbol that a suite-supplied [assert] instruction needs as an integer: one case in a while defines a non-integer
     bad_int = g.random() < 0.12
     case['setup'].append({'k': 'real', 'text': 'def string CASEINT = %s' % ('notAnInteger' if bad_int else '0'), 'fx': [['noop']]})
+    if g.random() < 0.3:
+        # the act contents stand first in the file, without a header (act is the default phase of EVERY case file,
+        # whatever phase the previous case of the run ended its parsing in)
+        case['layout'] = {'act_first_without_header': True}
     return {'id': cid, 'kind': kind, 'end': end, 'case': case, 'procs': procs, 'faults': faults, 'own_status': own_status,
             'bad_int': bad_int}
 
@@ -178,7 +182,8 @@ def make_plan(i, master, tier):
             'preprocessor': preprocessor, 'sub': sub, 'perm': perm, 'sweep': False,
             # case configuration supplied by the suite's [conf]: applies to directly listed cases, in every run mode
             'suite_conf': {'status_fail': g.random() < 0.2, 'actor': g.random() < 0.2},
-            'launch_elsewhere': kernel.stream(seed, 'launch').random() < 0.3}
+            'launch_elsewhere': kernel.stream(seed, 'launch').random() < 0.3,
+            'symlinked_cases': kernel.stream(seed, 'symlinks').random() < 0.25}
 
 
 # ----------------------------------------------------------------------------- model
@@ -370,7 +375,13 @@ def execute(plan, scratch):
     w.write('home/lines.txt', 'l1\nl2\nl3\n')
     w.write('home/sub/lines.txt', 'l1\nl2\nl3\n')
     for c in cases:
-        w.write('home/%s.case' % c['id'], render_case(c))
+        if plan.get('symlinked_cases'):
+            # the case files of the suite are symbolic links to files that stand elsewhere: the case is the link - its
+            # directory is where the suite, included files and home-relative files are looked for, in every run mode
+            w.write('home/shared/%s.case' % c['id'], render_case(c))
+            os.symlink(os.path.join('shared', '%s.case' % c['id']), os.path.join(w.home, '%s.case' % c['id']))
+        else:
+            w.write('home/%s.case' % c['id'], render_case(c))
     w.write('home/root.suite', suite_text(plan, 'root'))
     if plan['sub']:
         w.write('home/sub/sub.suite', suite_text(plan, 'sub'))
@@ -452,6 +463,10 @@ def _probes(plan, hist):
     pr = {'mode_suite_run': 1, 'mode_permuted': 1, 'mode_explicit_suite_option': 1, 'mode_beside_exactly_suite': 1}
     if plan.get('launch_elsewhere'):
         pr['launched_from_another_directory'] = 1
+    if plan.get('symlinked_cases'):
+        pr['case_files_are_symbolic_links'] = 1
+    if any((c['case'].get('layout') or {}).get('act_first_without_header') for c in plan['cases']):
+        pr['act_contents_without_header'] = 1
     cases = plan['cases']
     for order in (list(range(len(cases))), plan['perm']):
         seen_d = False
